@@ -351,6 +351,8 @@ def _case(draw):
         # at the moment of the assignment is membership in the *current* objects
         if draw(st.integers(0, 2)) == 0:
             cfg["objects_style"] = "dict"
+            # the *labels* of a dict declaration (k0, k1, ...) are not values: assigning one is rejected like any non-member
+            extra = ["k0", "k1", "k0"] + extra
         if draw(st.integers(0, 1)) == 0:
             edits = draw(st.lists(st.one_of(
                 st.tuples(st.just("set"), st.integers(0, 2), st.sampled_from(_NEW_OBJS)),
